@@ -7,10 +7,17 @@
 
   Parameters: the hash `H` (no hypothesis for `decode_total`, `decode_sound`, `decode_complete`; collision-freeness
   `HashOK H` for `accepted_unique`) and the Reed–Solomon encoder `enc`, about which only its SHAPE is assumed
-  (`EncShape`: `k` data shards give `k` parity shards).  No algebraic property of the codec is needed for C09.
+  (`EncShape`: `k` data shards give `k` parity shards).
+
+  What "the extension of the payload" means: `decode_sound` says the returned square is `extendRaw enc k ods`, the three
+  encoder passes of `from_ods` applied to the payload — by itself a statement about WHICH function of the payload is
+  returned, not that this function is an erasure code.  That the extension is a two-dimensional code (every row and
+  column a codeword, any half reconstructs) is C08 and needs the encoder to be LINEAR (`EncLinear`);
+  `decode_returns_2d_code` states the composition explicitly.
 -/
 import Lumina.Gen.C09
 import Lumina.Proofs.ShrexEds
+import Lumina.Props.C08
 
 namespace Lumina.Props.C09
 open Lumina.Util Lumina.Model.Nmt Lumina.Model.Eds Lumina.Model.EdsCode Lumina.Model.ShrexEds
@@ -83,6 +90,33 @@ theorem decode_sound (H : HashFn) (enc : List Bytes → List Bytes) (hs : ∀ k,
     · cases hr : raw with
       | nil => exact (ok.nonempty hr).elim
       | cons a t => rfl
+
+/-- **What an accepted payload is, in C08's terms** (composition with C08 `extend_spec`; needs the encoder to be linear):
+    the returned square keeps the payload's shares as its first quadrant and every one of its rows and columns is a
+    codeword of the encoder. -/
+theorem decode_returns_2d_code (H : HashFn) (enc : List Bytes → List Bytes) (raw : Bytes) (dah : Dah) (ver : Nat) (e : Eds)
+    (hs : EncShape enc (isqrt (chunks 512 raw).length))
+    (L : Lumina.Proofs.EdsLinear.EncLinear enc (isqrt (chunks 512 raw).length) 512)
+    (h : decodeAndVerify H enc raw dah ver = .ok e) :
+    Lumina.Spec.C08.specExtend enc (chunks 512 raw) (.ok e.width (e.shares.map Share.data)) = true := by
+  unfold decodeAndVerify at h
+  split at h
+  · cases h
+  · split at h
+    · cases h
+    · cases hf : fromOds enc ver (chunks SHARE_SIZE raw) with
+      | error er => simp [hf] at h
+      | ok eds =>
+        simp only [hf] at h
+        cases hd : Dah.ofEds H eds with
+        | error er => simp [hd] at h
+        | ok computed =>
+          simp only [hd] at h
+          split at h
+          · cases h
+          · injection h with h
+            subst h
+            exact Lumina.Props.C08.extend_spec enc ver (chunks 512 raw) eds hs L hf
 
 /-- non-vacuity of the codec hypothesis: a (useless but shape-correct) encoder exists, so `decode_sound` is not
     vacuous; the real codec's outputs satisfy the shape on every correspondence line -/
